@@ -721,8 +721,10 @@ impl EliasFanoBuilder {
     /// Creates a builder for an [`EliasFano`] containing
     /// `n` numbers smaller than or equal to `u`.
     pub fn new(n: usize, u: usize) -> Self {
-        let l = if u >= n {
-            (u as f64 / n as f64).log2().floor() as usize
+        // Integer arithmetic: the floating-point version gave l = 64 for
+        // u = usize::MAX and n = 1, and a meaningless value for n = 0
+        let l = if u >= n.max(1) {
+            (u / n.max(1)).ilog2() as usize
         } else {
             0
         };
@@ -882,8 +884,10 @@ impl EliasFanoConcurrentBuilder {
     /// Creates a concurrent builder for a sequence containing `n` nonnegative
     /// numbers smaller than or equal to `u`.
     pub fn new(n: usize, u: usize) -> Self {
-        let l = if u >= n {
-            (u as f64 / n as f64).log2().floor() as usize
+        // Integer arithmetic: the floating-point version gave l = 64 for
+        // u = usize::MAX and n = 1, and a meaningless value for n = 0
+        let l = if u >= n.max(1) {
+            (u / n.max(1)).ilog2() as usize
         } else {
             0
         };
